@@ -919,21 +919,52 @@ def history_catalogue(rng, thorough):
 # refused, or the Hamiltonian built from it is the definition and is Hermitian if it says so.
 PROBE_VALUES = {"complex": 1 + 0.5j, "complex_zero_imag": 2 + 0j, "np.complex128": np.complex128(0.5 - 1j),
                 "np.float64": np.float64(0.5), "np.float32": np.float32(-0.75), "np.int64": np.int64(2),
-                "int": 2, "bool": True, "negative_zero": -0.0}
-PROBE_SLOTS = {"ising": ["J", "h", "g"], "heisenberg": ["J0", "J2", "h1"], "hubbard": ["t", "u"], "hubbard2": ["t", "u"]}
+                "int": 2, "bool": True, "negative_zero": -0.0,
+                "np.complex64": np.complex64(0.5 + 0.25j), "np.clongdouble": np.clongdouble(-1.5 + 2j),
+                "np.float16": np.float16(0.5), "np.longdouble": np.longdouble(0.75), "np.int8": np.int8(-3), "np.bool_": np.bool_(True),
+                "0d-complex128": np.array(0.5 + 0.25j), "0d-float64": np.array(-1.25), "0d-int64": np.array(3)}
+PROBE_SLOTS = {"ising": ["J", "h", "g"], "heisenberg": ["J0", "J2", "h1"], "hubbard": ["t", "u"], "hubbard2": ["t", "u"],
+               "molecular": ["c"]}
 PROBE_LATTICES = [{"cls": "IntegerLattice", "shape": [3], "pbc": [False]},
                   {"cls": "CustomizedLattice", "shape": [4], "adj": [[0, 1, 1, 0], [1, 0, 1, 0], [1, 1, 0, 1], [0, 0, 1, 0]]},
                   {"cls": "LayeredLattice", "nlayers": 2, "base": {"cls": "IntegerLattice", "shape": [2], "pbc": [False]}}]
 
 
 def plain(v):
+    if isinstance(v, np.ndarray):
+        v = v.item()
     return complex(v) if isinstance(v, (complex, np.complexfloating)) else float(v)
+
+
+def run_probe_molecular(ctx, desc):
+    """the constant c of a molecular Hamiltonian (declared HERMITIAN or not) in an unusual type: refused, or the accepted
+    Hamiltonian is the definition, and Hermitian if it says so (the realness guard decides by type, the flag is about the value)"""
+    import qib
+    from qib.operator import MolecularHamiltonian
+    L, herm, varch = desc["L"], desc["herm"], desc["varch"]
+    v = PROBE_VALUES[desc["ptype"]]
+    tk = np.array([[0.5 * (i + j + 1) + 0.25j * (i - j) for j in range(L)] for i in range(L)], dtype=complex)
+    vi = np.zeros((L,) * 4, dtype=complex)
+    for i in range(L):
+        for j in range(L):
+            vi[i, j, i, j] = 0.5 + 0.25 * (i + j)
+            if i != j:
+                vi[i, j, j, i] = -0.75
+    field = qib.field.Field(qib.field.ParticleType.FERMION, qib.lattice.FullyConnectedLattice((L,)))
+    try:
+        H = MolecularHamiltonian(field, v, tk, vi, molecular_symm(herm, varch))
+    except (ValueError, TypeError):
+        return "refused"
+    molecular_check(ctx, H, L, plain(v), tk, vi, herm, desc)
+    return "accepted"
 
 
 def run_probe(ctx, desc):
     """returns 'accepted' / 'refused'"""
     import qib
     ham, slot, v = desc["ham"], desc["slot"], PROBE_VALUES[desc["ptype"]]
+    if ham == "molecular":
+        return run_probe_molecular(ctx, desc)
     spec = desc["lattice"]
     latt = make_lattice(spec)
     adj = np.asarray(latt.adjacency_matrix())
@@ -963,9 +994,18 @@ def run_probe(ctx, desc):
 
 
 def type_probes(ctx):
+    for ptype in PROBE_VALUES:
+        for L, herm, varch in ((1, True, False), (2, True, True), (2, True, False), (3, True, True), (2, False, True)):
+            desc = {"kind": "probe", "ham": "molecular", "slot": "c", "ptype": ptype, "L": L, "herm": herm, "varch": varch}
+            try:
+                res = run_probe(ctx, desc)
+            except Exception as e:
+                ctx.fail("molecular:exception", desc, "refusal or a Hamiltonian", repr(e))
+                continue
+            ctx.count("probe_molecular_%s_%s_%s" % ("hermitian" if herm else "general", ptype, res))
     for spec in PROBE_LATTICES:
         for ham, slots in PROBE_SLOTS.items():
-            if ham == "hubbard2" and spec["cls"] != "LayeredLattice":
+            if ham == "molecular" or (ham == "hubbard2" and spec["cls"] != "LayeredLattice"):
                 continue
             for slot in slots:
                 for ptype in PROBE_VALUES:
@@ -1008,9 +1048,10 @@ def run(ctx):
                      "Model matrices compared for <= %d sites, numpy oracle for <= %d sites. "
                      "non-trivial = lattice with at least one edge and a non-zero coupling (molecular: a non-zero two-body tensor)"
                      % (nmat_coq + 1, nmat_np))
-    ctx.rules.append("parameter-type probes: each coupling slot of Ising/Heisenberg/Hubbard in turn receives a complex, "
-                     "numpy-scalar, int, bool value: refused, or accepted and then checked like every other input "
-                     "(definition, Hermitian if it says so)")
+    ctx.rules.append("parameter-type probes: each coupling slot of Ising/Heisenberg/Hubbard and the constant c of the molecular "
+                     "Hamiltonian (declared HERMITIAN or not) in turn receives a Python complex / int / bool, numpy float16/32/64/"
+                     "longdouble, complex64/128/clongdouble, int8/64, bool_ scalar or a 0-d array: refused, or accepted and then "
+                     "checked like every other input (definition, Hermitian if it says so)")
     ctx.rules.append("histories: one scripted parameter scan per lattice class (Hubbard x3, Ising ZZ/XX, Heisenberg, molecular, "
                      "spinful Hubbard and Hamiltonians on the shared base object of layered lattices) + random histories of 2-4 "
                      "Hamiltonians, all on ONE lattice object with repeated as_pauli_operator/as_field_operator/as_matrix calls; "
